@@ -9,11 +9,12 @@ use tsmodel::paths::{join, normalize, resolve_spec, spec_syntax_errors};
 
 use crate::common::{arg_value, guarded, Report, Scratch, Slice};
 
-const DIRS: &[&str] = &["a", "b", "a.b", "x.ts", "ts", ".hid", ".", ".."];
-const FILES: &[&str] = &["A.ts", "b.c.ts", "x.ts.ts", "ts.ts", ".h.ts", "Ats"];
+// `A` differs from `a` in case only; `a.d.ts` ends in the declaration-file suffix
+const DIRS: &[&str] = &["a", "A", "a.b", "x.ts", "ts", ".hid", ".", ".."];
+const FILES: &[&str] = &["A.ts", "b.c.ts", "x.ts.ts", "ts.ts", ".h.ts", "Ats", "a.d.ts"];
 
 /// sub-alphabet for the deeper pass: one plain name, one `.ts`-suffixed name, `.` and `..`
-const DIRS_SMALL: &[&str] = &["a", "x.ts", ".", ".."];
+const DIRS_SMALL: &[&str] = &["a", "A", "x.ts", ".", ".."];
 
 fn rel_paths(depth: usize, alphabet: &[&str]) -> Vec<String> {
     let mut dirs: Vec<String> = vec![String::new()];
@@ -45,6 +46,7 @@ fn file_kind(p: &str) -> &'static str {
         "x.ts.ts" => "double-ts-suffix",
         "ts.ts" => "stem-is-ts",
         ".h.ts" => "dot-first",
+        "a.d.ts" => "declaration-file-suffix",
         _ => "no-ts-extension",
     }
 }
